@@ -15,16 +15,18 @@ from vlib import common
 from props import atp_common as A
 
 # which variant of ATPHello.tla the CURRENT client implements (flipped together with the repair 9e003bf)
-DESIGN = dict(LockFirst=True)
+DESIGN = dict(LockFirst=True, OneDecoder=True)
 
 SPECS = ["ATPHelloMC", "ATPHelloTraceMC"]
 
 
-def cfg(path, spec, calls, serial, peer, invariants=(), properties=(), lockfirst=None, describable=True, trace=False):
+def cfg(path, spec, calls, serial, peer, invariants=(), properties=(), lockfirst=None, describable=True, trace=False, onedecoder=None):
     lf = DESIGN["LockFirst"] if lockfirst is None else lockfirst
+    od = DESIGN["OneDecoder"] if onedecoder is None else onedecoder
     with open(path, "w") as f:
-        f.write("SPECIFICATION %s\nCONSTANTS\n  Calls <- %s\n  Serial = %s\n  Peer = \"%s\"\n  LockFirst = %s\n  Describable = %s\n" % (
-            spec, calls, "TRUE" if serial else "FALSE", peer, "TRUE" if lf else "FALSE", "TRUE" if describable else "FALSE"))
+        f.write("SPECIFICATION %s\nCONSTANTS\n  Calls <- %s\n  Serial = %s\n  Peer = \"%s\"\n  LockFirst = %s\n  Describable = %s\n  OneDecoder = %s\n" % (
+            spec, calls, "TRUE" if serial else "FALSE", peer, "TRUE" if lf else "FALSE", "TRUE" if describable else "FALSE",
+            "TRUE" if od else "FALSE"))
         if trace:
             f.write("CONSTRAINT HighWater\nINVARIANT TraceInv\nPOSTCONDITION Accepted\n")
         if invariants:
@@ -36,7 +38,7 @@ def cfg(path, spec, calls, serial, peer, invariants=(), properties=(), lockfirst
 
 C_INV = ["CTypeOK", "HelloHonest", "HsErrHasReason", "NoFabrication", "ReturnsOnce", "FailNotHang", "OneReader"]
 V1_INV = ["CTypeOK", "HelloHonest", "NoFabrication", "ReturnsOnce", "OneReader", "V1Transparent", "V1NoCrossTalk"]
-S_INV = ["STypeOK", "SrvOneError", "HelloAfterStart", "SrvTotal"]
+S_INV = ["STypeOK", "SrvOneError", "HelloAfterStart", "SrvTotal", "NothingSwallowed"]
 
 _BLK = re.compile(r"(?m)^(?:\\\* |State \d+: )<(\w+)(?:\((.*)\))? line")
 
@@ -81,7 +83,7 @@ def ops_from_labels(text, side):
         else:
             if name == "CliSend":
                 k = re.search(r't \|-> "(\w+)"', arg).group(1)
-                ops.append(dict(op="cli_send", kind=k))
+                ops.append(dict(op="cli_send", kinds=[k]))
             elif name == "CliEnd":
                 ops.append(dict(op="cli_end"))
             elif name == "OutFails":
@@ -156,7 +158,11 @@ def server_lines(res):
     for e in res.get("events") or []:
         ev, kv = e["ev"], e.get("kv") or {}
         if ev == "e.send":
-            out.append(L("e.send", k=kv["kind"]))
+            out.append(L("e.send", k=kv["kind"], r=kv.get("run", "")))
+        elif ev == "s.recv" and "err" not in kv:
+            # what the read loop decoded: a work-start with its run ID, or (an empty message) another start item
+            mid = int(kv.get("id", 0) or 0)
+            out.append(L("s.recv", k="ws" if mid == 1 else ("start" if mid == 0 else "id%d" % mid), r=kv.get("run", "")))
         elif ev == "e.end":
             out.append(L("e.end"))
         elif ev == "e.outfail":
@@ -203,7 +209,34 @@ def judge(ctx, sc, rr, side, peer="env"):
                               dict(scenario=sc, run=rid, got=e.get("got"), results=res["results"]))
             if rid != "#schema" and peer == "v1" and e["st"] not in ("ok", "none"):
                 ctx.violation(dict(kind="lost_result", framing="v1"), dict(scenario=sc, run=rid, results=res["results"]))
+    if side == "server":
+        server_oracle(ctx, sc, res)
     return res
+
+
+def server_oracle(ctx, sc, res):
+    """independent of the specification: the first well-formed item is the start message; every work-start written
+    cleanly behind it - in the same Write or a later one - is answered exactly once while the output is open"""
+    sent = [(e["kv"]["kind"], e["kv"].get("run", "")) for e in res.get("events") or [] if e["ev"] == "e.send"]
+    rec = res.get("received") or []
+    if "hello" not in rec or not res.get("server_ret") or any(o.get("op") == "out_fail" for o in sc.get("ops", [])):
+        return
+    given = []
+    for k, r in sent[1:]:
+        if k in ("junk", "part"):
+            break
+        given.append((k, r))
+    seen = [e["kv"].get("run", "") for e in res.get("events") or [] if e["ev"] == "s.recv" and "err" not in (e.get("kv") or {})]
+    if len(seen) != len(given) or any(a != b[1] for a, b in zip(seen, given)):
+        ctx.violation(dict(kind="read_loop_not_given_what_was_sent", part="hello/server", given=len(given), seen=len(seen)),
+                      dict(scenario=sc, sent=sent, seen=seen, received=rec))
+        return
+    for k, r in given:
+        n = sum(1 for m in rec if m in ("wd:" + r, "err_step:" + r))
+        if k == "ws" and n != 1:
+            ctx.violation(dict(kind="work_start_answers", part="hello/server", n=min(n, 2)),
+                          dict(scenario=sc, run=r, sent=sent, received=rec))
+            return
 
 
 def validate(ctx, sessions, peer, serial=False, describable=True, label="hellotrace"):
@@ -264,8 +297,10 @@ def play(ctx, scen, side, peer, serial=False, describable=True, label="hello"):
     return n
 
 
-def tlc_exhaustive(ctx, name, spec, calls, serial, peer, invariants=(), properties=(), lockfirst=None, describable=True, expect=None):
-    c = cfg(os.path.join(ctx.tmp, "hello_%s.cfg" % name), spec, calls, serial, peer, invariants, properties, lockfirst, describable)
+def tlc_exhaustive(ctx, name, spec, calls, serial, peer, invariants=(), properties=(), lockfirst=None, describable=True, expect=None,
+                   onedecoder=None):
+    c = cfg(os.path.join(ctx.tmp, "hello_%s.cfg" % name), spec, calls, serial, peer, invariants, properties, lockfirst, describable,
+            onedecoder=onedecoder)
     r = ctx.tlc("ATPHelloMC", c, workers=4, timeout=600, allow_violation=True)
     ctx.log("ATPHello %s: %r" % (name, r))
     if expect is None and r.violated:
@@ -314,16 +349,44 @@ def stage_v1(ctx, thorough):
     return play(ctx, scen, "client", "v1", label="c05hello")
 
 
+def coalesced(ops):
+    """the same client behaviour with consecutive sends issued as ONE Write: the server's decoder gets the items
+    with one Read (a client need not wait for the hello before it writes its first work-start)"""
+    out = []
+    for o in ops:
+        if o["op"] == "cli_send" and out and out[-1]["op"] == "cli_send":
+            out[-1] = dict(op="cli_send", kinds=out[-1]["kinds"] + o["kinds"])
+        else:
+            out.append(dict(o))
+    return out
+
+
 def stage_server(ctx, thorough):
-    """C07: the server's handshake against any client"""
+    """C07: the server's handshake against any client, and the hand-over of the stream to the read loop"""
     tlc_exhaustive(ctx, "server", "SSpec", "None", True, "env", S_INV)
     tlc_exhaustive(ctx, "server_undesc", "SFairSpec", "None", True, "env", S_INV, ["SrvEventuallyDecides"], describable=False)
-    tlc_exhaustive(ctx, "server_live", "SFairSpec", "None", True, "env", properties=["SrvEventuallyDecides"])
+    tlc_exhaustive(ctx, "server_live", "SFairSpec", "None", True, "env", properties=["SrvEventuallyDecides", "LoopSeesAll"])
+    # the named deviation (a decoder of its own for the handshake): TLC must exhibit the swallowed message
+    tlc_exhaustive(ctx, "server_own_decoder", "SSpec", "None", True, "env", ["NothingSwallowed"], onedecoder=False, expect="NothingSwallowed")
     n = 0
+    S, W, J, P = "start", "ws", "junk", "part"
+    hand = [[[S, W]], [[S, W, W]], [[S, W], [W]], [[W, W]], [[S, S, W]], [[S, W, J]], [[S, W, P]], [[S], [W, W]], [[S, W, W, W, W]],
+            [[S, W], [W, W], [W]], [[J]], [[S, W, S, W]]]
     for desc in (True, False):
         c = cfg(os.path.join(ctx.tmp, "hello_srv_sim_%s.cfg" % desc), "SSpec", "None", True, "env", S_INV, describable=desc)
         beh = behaviours(ctx, "srv%s" % desc, c, "server", 400 if thorough else 150, depth=20)
         scen = [dict(id="hello_srv/%s/sim%d" % ("d" if desc else "u", i), mode="hello_srv", ops=ops,
                      hello_bad="" if desc else "undescribable") for i, ops in enumerate(beh)]
+        seen = set(json.dumps(o) for o in beh)
+        for i, ops in enumerate(beh):
+            co = coalesced(ops)
+            if json.dumps(co) not in seen:
+                seen.add(json.dumps(co))
+                scen.append(dict(id="hello_srv/%s/sim%d/onewrite" % ("d" if desc else "u", i), mode="hello_srv", ops=co,
+                                 hello_bad="" if desc else "undescribable"))
+        for i, h in enumerate(hand):
+            for tail in ([], [dict(op="cli_end")]):
+                scen.append(dict(id="hello_srv/%s/pipelined%d%s" % ("d" if desc else "u", i, "e" if tail else ""), mode="hello_srv",
+                                 ops=[dict(op="cli_send", kinds=k) for k in h] + tail, hello_bad="" if desc else "undescribable"))
         n += play(ctx, scen, "server", "env", describable=desc, label="c07hello")
     return n
